@@ -52,6 +52,13 @@ def plan(tier, seed):
         for sh in range(NSH if k >= 6 else 1):
             units.append(("dagdepth", [(k, me, sh, NSH if k >= 6 else 1)], ("dagdepth",)))
     unis["depth harness: DAG shapes (nodes, max edges)"] = len(dd)
+    # every complete strategy on unions and on the larger kernel networks: reference-free depth / id check afterwards
+    strat_nets = [("u", ("k", a), ("k", b)) for a in ks3 for b in ks3 if a <= b] + [("k", k) for k, n in K.items() if n.n >= 4]
+    if tier == "quick":
+        strat_nets = U.shard(strat_nets[:210], seed, 2) + strat_nets[210:]
+    for ch in U.chunks(strat_nets, 8):
+        units.append(("strategies", ch, ("strategies",)))
+    unis["complete strategies on unions / larger kernel networks (reference-free depth check)"] = len(strat_nets)
     fulld = 2
     fullnets = [("k", k) for k, n in K.items() if n.n <= 4 and len(n.sd[0]) <= (5 if tier == "quick" else 9)] + \
                [("idx", 2, i) for i in (U2 if tier != "quick" else [i for i in U2 if c04.sd_size(("idx", 2, i)) >= 3])]
@@ -73,6 +80,9 @@ def plan(tier, seed):
     summ += [("p4", a, b) for a, b in (U.P4_pairs(True) if tier != "quick" else U.shard(U.P4_pairs(True), seed, 4))]
     ks = sorted(U.kernel_small(3))
     summ += [("u", ("k", a), ("k", b)) for a in ks for b in ks if a <= b]
+    # networks declared through the API in unsorted variable order (summary() prints in sorted order)
+    UNS = {2: ["z", "b"], 3: ["z", "b", "a"], 4: ["z", "b", "y", "a"]}
+    summ += [("api", ("k", k), UNS[n.n]) for k, n in K.items() if n.n in UNS]
     unis["summary after build"] = len(summ)
     for ch in U.chunks(summ, 150):
         units.append(("summary", ch, None))
@@ -309,6 +319,20 @@ def run_unit(unit):
                     if n >= 2:
                         res["nontrivial"].add(repr(spec))
                     res["outcomes"].add(("summary", n))
+                    res["states"] += 1
+                elif kind == "strategies":
+                    vio = []
+                    for op in (("scc", True), ("scc", False), ("block", True, None, True), ("block", False, None, True),
+                               ("block", True, None, False), ("build",), ("aseeds", None), ("min", None, None, True), ("dfs", None, None, None)):
+                        sd = new_sd(net)
+                        try:
+                            sd, _ = apply(sd, op)
+                        except RuntimeError:
+                            continue
+                        res["evals"] += 1
+                        res["transitions"] += 1
+                        for o, d in meta_check(net, sd):
+                            vio.append(V(o, {"net": list(spec), "history": [list(op)]}, f"{net!r}: after {op}: {d}", site=op[0]))
                     res["states"] += 1
                 elif kind == "deepfirst":
                     vio = deepfirst(net, spec, res)
